@@ -25,7 +25,10 @@ Positions  == {"property", "nested", "item", "definition", "allof", "anyof", "al
 \* the ungeneratable elements the statement lists: success or a clean failure, never a crash
 \* "badgotype": a goJSONSchema type that is not a Go type -- the schema generates, the emitted text is not valid Go
 \* (C01's business); C18 only demands success with complete output or a clean failure, never files left by a failed run
-EitherFaults == {"refhash", "refhashslash", "refdefsempty", "defaultemptykey", "badgotype"}
+\* "selfallof" / "selfanyof" / "recallof": an allOf / anyOf branch that refers back to the schema it is part of (a
+\* definition listing itself; a property that wraps a reference to its own definition in an allOf): not one of the
+\* ungeneratable elements of the statement -- success or a clean failure, never a hang or a crash
+EitherFaults == {"refhash", "refhashslash", "refdefsempty", "defaultemptykey", "badgotype", "selfallof", "selfanyof", "recallof"}
 
 OkArg == [status |-> "ok", fault |-> "", pos |-> ""]
 BadArgs == {[status |-> "bad", fault |-> f, pos |-> "file"] : f \in FileFaults}
@@ -35,6 +38,11 @@ BadArgs == {[status |-> "bad", fault |-> f, pos |-> "file"] : f \in FileFaults}
            \* define it under the same reference text
            \cup {[status |-> "bad", fault |-> "droppeddef", pos |-> "allofbranch"]}
            \cup {[status |-> "bad", fault |-> "badgotype", pos |-> p] : p \in {"property", "definition"}}
+           \* a reference to a whole document that has no root schema ({} or only $id / $defs): nothing to generate
+           \cup {[status |-> "bad", fault |-> f, pos |-> "reffile"] : f \in {"norootempty", "norootdefsonly"}}
+           \* a JSON null where a schema is expected
+           \cup {[status |-> "bad", fault |-> "nullschema", pos |-> p] : p \in {"property", "nested", "definition", "allofbranch", "anyofbranch", "reffile"}}
+           \cup {[status |-> "bad", fault |-> f, pos |-> "definition"] : f \in {"selfallof", "selfanyof", "recallof"}}
 ArgChoices == {OkArg} \cup BadArgs
 
 ArgLists ==
